@@ -35,7 +35,9 @@ def mset : Meta → String → String → Meta
 
 /-! ### handler results -/
 
-/-- value a handler panics with: a string, an error value (its text), or `nil` -/
+/-- value a handler panics with: a string, an error value (its text), or `nil`.  Whether `recover()` then yields `nil`
+    (GODEBUG panicnil=1, programs with go < 1.21) or `*runtime.PanicNilError` is not distinguished: both are `nil` here, and
+    `Recoverer` (flag `panicked`) does not depend on it. -/
 inductive PVal
   | str (s : String)
   | err (s : String)
@@ -354,5 +356,17 @@ def applyDelay (c : DelayCfg) : Delay → Nat
   | _ => c.init
 
 end Old
+
+/-! ### behaviour of third-party code in a legacy runtime mode, kept for a witness theorem -/
+namespace Legacy
+
+/-- gobreaker v1.0.0 `Execute` in a program running with GODEBUG=panicnil=1: its deferred function re-panics only when
+    `recover()` is non-nil, so a `panic(nil)` of the handler ends as the zero results `(nil, nil)` -/
+def breaker (h : Handler) : Handler := fun st =>
+  match h st with
+  | (.panic .nil, st') => (.ret [] none, st')
+  | x => x
+
+end Legacy
 
 end Wm.Mw
